@@ -418,10 +418,21 @@ def compare(c, io, drv):
     d = _outs_equal(c, got, [dec(v) for v in model["out"]], model)
     if d:
         out.append(("model", "output differs from model: " + d))
+    if _short_memory(c, model):
+        # outside the property's quantifier ("memories of sufficient length"): the LEFT padding is
+        # checked against the model only (as coded), never reported as a violated property
+        return out
     d = _outs_equal(c, got, [dec(v) for v in spec["out"]], model)
     if d:
         out.append(("spec", "output violates the difference equation: " + d))
     return out
+
+
+def _short_memory(c, model):
+    m = c.get("mem")
+    if m is None or "vals" not in m:
+        return False
+    return len(m["vals"]) < len(model.get("a", [0])) - 1
 
 
 def nontrivial(c, io):
@@ -477,7 +488,9 @@ def classify(c, io, drv):
             parts.append("ir-kind-%s-vs-%s" % (ir.get("kind"), mir.get("kind")))
         else:
             parts.append("ir-" + "+".join(f for f in ("nm", "nd", "sum", "gain", "shifts", "zero") if ir.get(f) != mir.get(f)))
-    if "out" in io and "out" in spec:
+    if "out" in io and "out" in spec and _short_memory(c, model):
+        parts.append("short-memory-padding")
+    elif "out" in io and "out" in spec:
         if len(io["out"]) != len(spec["out"]):
             parts.append("output-length")
         elif _outs_equal(c, [dec(v) for v in io["out"]], [dec(v) for v in spec["out"]], model):
